@@ -74,7 +74,9 @@ func NewUnaryHandler[Req, Res any](
 		if err != nil {
 			return err
 		}
-		mergeHeaders(conn.ResponseHeader(), response.Header())
+		// The Response may be one received from another server and passed on: what
+		// its headers say about the framing of that response must not describe ours.
+		mergeMetadataHeaders(conn.ResponseHeader(), response.Header())
 		mergeHeaders(conn.ResponseTrailer(), response.Trailer())
 		return conn.Send(response.Any())
 	}
@@ -103,7 +105,9 @@ func NewClientStreamHandler[Req, Res any](
 			if err != nil {
 				return err
 			}
-			mergeHeaders(conn.ResponseHeader(), res.header)
+			// The Response may be one received from another server and passed on: what
+			// its headers say about the framing of that response must not describe ours.
+			mergeMetadataHeaders(conn.ResponseHeader(), res.header)
 			mergeHeaders(conn.ResponseTrailer(), res.trailer)
 			return conn.Send(res.Msg)
 		},
